@@ -41,16 +41,22 @@ TECHNIQUE = ('bounded exhaustive enumeration of catalogue entries x sizes x owne
              'family of shuffle permutations) and of an exhaustive grid of uniform inputs for the quantile transform, '
              'executed on the real generators and compared with an independent reference (exact radical inverse, '
              'strata, mirrors, certified erf/erfc Newton quantile)')
-RULE = ('gen: one case per (catalogue entry, N, R, uniform tape, shuffle answer); N, R from the tier\'s size grid '
-        '(odd R only for non-antithetic entries); tapes: the seed\'s family of deterministic uniform tapes; shuffle '
-        'answers: all n! permutations when the shuffled part has n <= 5 entries, else identity, reversal, every '
-        'adjacent transposition and every rotation (all tapes x {identity, reversal}, first two tapes x the rest); '
-        'non-trivial = N*R >= 2; distinct = distinct (entry, N, R, tape, answer). '
-        'q: one case per uniform input u: every u = (k+theta)/2^m (m = 15 quick / 18 thorough, theta by seed), '
-        'every 2^-j (15 <= j <= 1020) and 1-2^-j (j <= 53) with small multiples, and +-0..8 ulp and +-2^-j '
-        'neighbours of 0.075, 0.425, 0.45, 0.5, 0.55, 0.575, 0.925, e^-25, 1-e^-25; each through the flat path, '
-        'tails/branch points also through the (N, R)-shaped and the antithetic path; all non-trivial; '
-        'distinct = distinct (path, u).')
+RULE = ('gen: one case per (catalogue entry, N, R, uniform tape, shuffle answer); N x R from the tier\'s size grid '
+        '(quick N in {1,2,3,5} x R in {1,2,3,4,6,10}; thorough N in {1,2,3,4,5,7} x R in {1,2,3,4,5,6,8,10,12,16,20,50}; '
+        'odd R only for non-antithetic entries, the others counted as out of domain); tapes: the seed\'s family of 9 '
+        'deterministic uniform tapes (Halton entries consume none: 1 case); shuffle answers: all n! permutations when '
+        'the shuffled part has n <= 5 entries, else identity, reversal, every adjacent transposition and every rotation '
+        '(all tapes x {identity, reversal}, first two tapes x the rest); the first case of every (entry, N, R) also '
+        'through Database.generate_draws; non-trivial = N*R >= 2; distinct = distinct (entry, N, R, tape, answer). '
+        'q: one case per (path, uniform input u): every u = (k+theta)/2^m (m = 16 quick / 19 thorough, theta by seed), '
+        'every 2^-j (15 <= j <= 1020) and 1-2^-j (j <= 53) with small multiples, +-0..8 ulp and +-2^-j '
+        'neighbours of 0.075, 0.425, 0.45, 0.5, 0.55, 0.575, 0.925, e^-25, 1-e^-25 and a 399-point comb; the grid '
+        'through the flat path, tails/branch points also through the (N, R)-shaped and the antithetic path; all '
+        'non-trivial. hskip: one case per (entry without advertised skip, N, R). hd: get_halton_draws for bases '
+        '{2,3,5,7[,11,13]} x skips x sizes with N*R <= 20 (60) x symmetric x {unshuffled, shuffled with every answer '
+        '(n <= 5) / a family of ~8 answers}. lhs: get_latin_hypercube_draws with explicit uniform numbers (every tape) x '
+        'symmetric x shuffle answers, get_antithetic with a deterministic generator. shape: Database.generate_draws '
+        'with user generators returning 7 shapes x 6 sizes.')
 ASSUMPTIONS = [
     'biogeme.draws obtains randomness only through numpy.random.uniform and numpy.random.shuffle looked up on the '
     'numpy.random module at call time (the owned seam); other legacy numpy.random functions are trapped and reported '
@@ -62,6 +68,8 @@ ASSUMPTIONS = [
     'quantile comparison tolerance 3e-14*max(1,|z|) (a correct AS241 is within 1e-15 of the reference on all grids); '
     'denormal inputs u < 2^-1020 are outside the grid',
     'an entry that advertises a base but no skip may use any skip in 0..64, the same for every size',
+    'a Latin-hypercube case in which a point lies within 1e-9 (in stratum units) of a stratum boundary is skipped and '
+    'counted (skipped_fragile_stratum_boundary; arises only for the tape that contains 1e-12 and 1-1e-12)',
 ]
 ANCHOR_FILES = ['src/biogeme/draws.py', 'src/biogeme/native_draws.py', 'src/biogeme/database.py']
 DETERMINISM_SLICE = 3
@@ -78,6 +86,9 @@ _SEEDSETS = [
     dict(weyl=0.8191725133961645, weyl2=0.6710436067037893, eps=3 * 2.0 ** -21, alt=(0.3, 0.7), theta=0.5),
     dict(weyl=0.2360679774997898, weyl2=0.7320508075688772, eps=2.0 ** -18, alt=(0.4375, 0.5625), theta=0.2),
     dict(weyl=0.3027756377319946, weyl2=0.1415926535897931, eps=5 * 2.0 ** -22, alt=(0.0625, 0.9375), theta=1.0 / 7.0),
+    dict(weyl=0.4655712318767680, weyl2=0.8556343548213108, eps=7 * 2.0 ** -23, alt=(0.2, 0.8), theta=0.75),
+    dict(weyl=0.5497004779019701, weyl2=0.3247179572447460, eps=2.0 ** -17, alt=(0.46, 0.54), theta=1.0 / 11.0),
+    dict(weyl=0.6823278038280193, weyl2=0.9128709291752769, eps=3 * 2.0 ** -20, alt=(0.07, 0.93), theta=0.6),
 ]
 SS = _SEEDSETS[_SEED % len(_SEEDSETS)]
 _BRANCHY = [0.074, 0.076, 0.44, 0.46, 0.5, 0.54, 0.56, 0.924, 0.926, 1e-12, 1.0 - 1e-12, 0.0749999, 0.9250001]
@@ -565,6 +576,7 @@ def _part_gen(task, rec, only=None):
     n, r = task['N'], task['R']
     cache = {}
     first_out = {}
+    sh_i, sh_k = task.get('shard', [0, 1])
     for name, (gen, adv) in cat.items():
         if only and name != only.get('type'):
             continue
@@ -575,15 +587,18 @@ def _part_gen(task, rec, only=None):
         if only:
             cases = [(only['tape'], tuple(_detuple(only['perm'])))]
         if adv['mlhs']:
-            rec.count('shuffle_answers_complete' if complete else 'shuffle_answers_family', 1)
+            if sh_i == 0:
+                rec.count('shuffle_answers_complete' if complete else 'shuffle_answers_family', 1)
         for i, (tid, perm) in enumerate(cases):
+            if i % sh_k != sh_i:
+                continue
             vals = check_entry_case(rec, cat, name, n, r, tid, perm, cache, via_db=(i == 0))
             if i == 0:
                 first_out[name] = vals
-                if name in ('UNIFORM_HALTON3', 'NORMAL_MLHS_ANTI') and n * r <= 12:
+                if name in ('UNIFORM_HALTON3', 'NORMAL_MLHS_ANTI', 'UNIFORMSYM_MLHS') and (n, r) == (2, 2):
                     rec.sample(dict(part='gen', type=name, N=n, R=r, tape=tid, advertised={k: adv[k] for k in
                                ('normal', 'anti', 'halton', 'mlhs', 'base', 'skip', 'support')}, output=vals))
-    if only:
+    if only or sh_i != 0:
         return
     # ---- entries advertising different bases must yield different sequences
     hal = [(nm, a) for nm, (_, a) in cat.items() if a['halton'] and a['base'] is not None]
@@ -609,6 +624,7 @@ def _detuple(p):
 # --------------------------------------------------------------------------- part hskip
 def _part_hskip(task, rec):
     cat = catalogue()
+    rec.count('catalogue_entries', len(cat))
     for name, (gen, adv) in cat.items():
         if not (adv['halton'] and adv['base'] is not None and adv['skip'] is None):
             continue
@@ -904,7 +920,7 @@ def _part_q(task, rec):
 
 
 # --------------------------------------------------------------------------- tasks
-def sizes(tier, anti_ok_only=False):
+def sizes(tier):
     if tier == 'quick':
         ns, rs = [1, 2, 3, 5], [1, 2, 3, 4, 6, 10]
     else:
@@ -918,7 +934,12 @@ def tasks(tier, seed):
     t = []
     sz = sizes(tier)
     for n, r in sz:
-        t.append(dict(part='gen', N=n, R=r))
+        if n * r <= 60:
+            t.append(dict(part='gen', N=n, R=r))
+        else:  # large sizes: every entry's list of (tape, shuffle answer) cases is dealt round-robin over k tasks
+            k = 8
+            for i in range(k):
+                t.append(dict(part='gen', N=n, R=r, shard=[i, k]))
     t.append(dict(part='hskip', sizes=[list(s) for s in sz]))
     small = [list(s) for s in sz if s[0] * s[1] <= (20 if tier == 'quick' else 60)]
     for base in ([2, 3, 5, 7] if tier == 'quick' else [2, 3, 5, 7, 11, 13]):
@@ -931,7 +952,7 @@ def tasks(tier, seed):
     chunk = 1500
     for lo in range(0, nsp, chunk):
         t.append(dict(part='q', kind='special', lo=lo, hi=min(nsp, lo + chunk), paths=['flat', 'shaped', 'anti']))
-    m = 15 if tier == 'quick' else 18
+    m = 16 if tier == 'quick' else 19
     chunk = 4096 if tier == 'quick' else 8192
     for lo in range(0, 2 ** m, chunk):
         t.append(dict(part='q', kind='grid', m=m, lo=lo, hi=lo + chunk, paths=['flat']))
@@ -969,6 +990,9 @@ def replay(case):
         else:
             _part_gen(dict(part='gen', N=case['N'], R=case['R']), rec,
                       only=dict(type=case['type'], tape=case['tape'], perm=case['perm']))
+            if 'witness_u' in case:
+                rec.violations = [v for v in rec.violations if v['case'].get('witness_u') == case['witness_u']] \
+                    or rec.violations
     elif part == 'hskip':
         _part_hskip(case, rec)
     elif part == 'hd':
